@@ -42,7 +42,7 @@ from vgi_rpc.rpc import RpcError, RpcServer
 PROPERTY = "C11"
 RULE = (
     "Hypothesis: producer script (0-9 emit steps: rows 0-3, payload 0-3000 B compressible or sha-chain, 0-2 log "
-    "batches, optional app metadata; terminator none/finish/emit+finish/raise) x method (state-only or "
+    "batches, optional app metadata, optionally (tk) output that reports whether the tick of that process() call carried request metadata; terminator none/finish/emit+finish/raise) x method (state-only or "
     "call-state split, with/without header) x 1-3 workers (cap None | absolute 1..100000 | placed at the exact "
     "end offset of a generated batch range -8/-1/0/+1/+8; cache default|0) + a cap-less harvest worker x codec "
     "{off,zstd,gzip} x per-POST route over the workers x 0-3 resume ops (token index, landing worker + route, "
@@ -387,6 +387,7 @@ _emit = st.fixed_dictionaries(
         "logs": st.sampled_from([0, 0, 0, 1, 2]),
         "logpad": st.sampled_from([0, 0, 10, 200]),
         "md": st.booleans(),
+        "tk": st.booleans(),
     }
 )
 
